@@ -181,6 +181,27 @@ Out run_as_block(const Req &r) {
     Out o; o.ran = false; o.skipped = "relaxation::as_block<" + r.relax + "> does not compile"; return o;
 }
 c13::Registrar r4("as_block", b, BTYPE, run_as_block);
+#if !C13_EIGEN
+// the as_block wrapper with a SINGLE precision block backend inside the double precision hierarchy (the wrapper reinterprets the
+// enclosing backend's double vectors as blocks for its own backend): pointwise smoothers only
+template <template <class> class R> Out run_as_block_mixed_with(const Req &r) {
+    typedef make_solver<amg<SB, runtime::coarsening::wrapper, relaxation::as_block<FB, R>::template type>, runtime::solver::wrapper<SB>> S3m;
+    return guarded([&](Out &o) {
+        Arrays a(*r.A); auto At = std::tie(a.n, a.ptr, a.col, a.val);
+        ptree p = c13::base_params(r, true, true, false);
+        S3m S(At, p);
+        o.levels = levels_of(S); o.opdiff = opdiff(S.system_matrix(), *r.A);
+        o.x = r.x0;
+        if (r.form == 0) std::tie(o.iters, o.resid) = S(r.f, o.x); else std::tie(o.iters, o.resid) = S(At, r.f, o.x);
+    });
+}
+Out run_as_block_mixed(const Req &r) {
+    if (r.relax == "spai0") return run_as_block_mixed_with<relaxation::spai0>(r);
+    if (r.relax == "damped_jacobi") return run_as_block_mixed_with<relaxation::damped_jacobi>(r);
+    Out o; o.ran = false; o.skipped = "as_block with a single precision block backend: pointwise smoothers only"; return o;
+}
+c13::Registrar r4m("as_block_mixed", b, BTYPE, run_as_block_mixed);
+#endif
 #endif
 
 #if C13_GROUP == 3
